@@ -26,7 +26,11 @@ def enum_values(t):
 
 
 def enum_is_64(t):
-    return any(v > 0xFFFFFFFF or v < -0x80000000 for v in enum_values(t))
+    vals = enum_values(t)
+    if any(v < 0 for v in vals):
+        # a negative enumerator makes the underlying type signed: 2^31 and above then needs 64 bits
+        return any(v > 0x7FFFFFFF or v < -0x80000000 for v in vals)
+    return any(v > 0xFFFFFFFF for v in vals)
 
 
 def _resolve(m, t):
